@@ -9,7 +9,11 @@ constructors (model == implementation); the oracle is the expression built direc
 from checks import parsecommon as pc
 
 PROOF_MODULES = []   # coq/Parse/*.v are compiled directly with coqc by parsecommon.build_coq (see ORDER there)
-OBLIGATIONS = []
+OBLIGATIONS = [
+    "C17/P_grammar_conventional.v", "C17/P_maximal_munch.v", "C17/P_prec_table.v",
+    "C17/P_parse_numeric_decimal.v", "C17/P_parse_numeric_float.v", "C17/P_lex_numeric.v",
+    "C17/P_lex_slices.v", "C17/P_nonvacuous.v",
+]
 
 CORPUS_STRINGS = [
     # literals: base 10 whatever the leading zeros; the `long` boundary; floats
@@ -141,6 +145,11 @@ def explore(ctx, drv, model, items, search=False):
             ctx.violation("C17/crash", "parse(%s, convert_xor=%s) -> %s" % (pc.show(s), c, r["impl"][-60:]), rep)
         elif r["flag"]:
             failing.append((c, s, o, ast, r))
+        elif r["model"] == "EXN:4" and r["impl"].startswith("EXN:"):
+            # a syntax error for the model; the LALR parser had already run an action that threw another
+            # library exception before it reached the offending token (e.g. `(1e3>=True`)
+            ctx.cov.setdefault("action_exception_before_syntax_error", 0)
+            ctx.cov["action_exception_before_syntax_error"] += 1
         elif r["impl"] != r["model"]:
             ndis += 1
             if ndis <= 3:
